@@ -215,14 +215,15 @@ def step (s : VSt) (toks : List String) : String × VSt :=
         -- the object's address, so nothing changes
         let claims := cfg.flavour == .std || s.mem.cat != .ntr
         if claims then runOp s (unit (pure ())) else skip
+    -- `at`, `operator==`, `operator<` of the model (Model/Vec.lean: the functions Props/C01e.lean is about and that
+    -- Bridge/VecAccessBridge.lean ties to the source)
     | "at", [i] => runOp s (do
-        if cnt i ≥ (← vsize cfg c) then raise .outOfRange
-        let v ← readLive ((← vbegin cfg c).add (cnt i))
+        let v ← atIdx cfg c (cnt i)
         pure (toString v))
     | "cmp", [d] => runOp s (do
-        let a ← elems cfg c
-        let b ← elems cfg (nat d)
-        pure s!"{if a == b then 1 else 0}{if decide (a < b) then 1 else 0}")
+        let eq ← vecEqual (fun a b => a == b) cfg c (nat d)
+        let lt ← vecLess (fun a b => decide (a < b)) cfg c (nat d)
+        pure s!"{if eq then 1 else 0}{if lt then 1 else 0}")
     | _, _ => ("bad-op ret=-", s)
   | _ => ("bad-op ret=-", s)
 
